@@ -124,6 +124,45 @@ def build_program(form, o, i, n, names, uva, uvk, partial, emulate):
                '    def wrapper(%s):\n        return %s\n') % (da, params_src(si), params_src(so), body1,
                                                              params_src(si), params_src(so), body2)
         return src, lambda ns: {'Sub().wrapper': ns['Sub']().wrapper, 'Sub2().wrapper': ns['Sub2']().wrapper}
+    if form == 'classmethod':
+        # the forger sits on top of a classmethod object (needs emulate=True); looked up on the class,
+        # on an instance, on a subclass and on a subclass instance
+        body = 'functools.partial(self.inner, %s)' % ca if partial else 'self.inner(%s)' % ca
+        src = ('import functools\nfrom sigtools.specifiers import *\n'
+               'class K(object):\n' + falsy +
+               '    @classmethod\n'
+               '    def inner(%s):\n        return None\n'
+               '    @forwards_to_method(%s)\n'
+               '    @classmethod\n'
+               '    def wrapper(%s):\n        return %s\n'
+               'class Sub(K):\n    pass\n') % (
+            params_src(si), deco_args(n, names, uva, uvk, partial, True, "'inner'"), params_src(so), body)
+        return src, lambda ns: {'K.wrapper': ns['K'].wrapper, 'K().wrapper': ns['K']().wrapper,
+                                'Sub.wrapper': ns['Sub'].wrapper, 'Sub().wrapper': ns['Sub']().wrapper}
+    if form == 'classmethod_super':
+        body = 'functools.partial(super().wrapper, %s)' % ca if partial else 'super().wrapper(%s)' % ca
+        src = ('import functools\nfrom sigtools.specifiers import *\n'
+               'class Base(object):\n' + falsy +
+               '    @classmethod\n'
+               '    def wrapper(%s):\n        return None\n'
+               'class Sub(Base):\n'
+               '    @forwards_to_super(%s)\n'
+               '    @classmethod\n'
+               '    def wrapper(%s):\n        return %s\n'
+               'class SubSub(Sub):\n    pass\n') % (
+            params_src(si), deco_args(n, names, uva, uvk, partial, True), params_src(so), body)
+        return src, lambda ns: {'Sub.wrapper': ns['Sub'].wrapper, 'Sub().wrapper': ns['Sub']().wrapper,
+                                'SubSub.wrapper': ns['SubSub'].wrapper}
+    if form == 'static_function':
+        body = 'functools.partial(inner, %s)' % ca if partial else 'inner(%s)' % ca
+        src = ('import functools\nfrom sigtools.specifiers import *\n'
+               'def inner(%s):\n    return None\n'
+               'class K(object):\n' + falsy +
+               '    @forwards_to_function(%s)\n'
+               '    @staticmethod\n'
+               '    def wrapper(%s):\n        return %s\n') % (
+            params_src(i), deco_args(n, names, uva, uvk, partial, True, 'inner'), params_src(o), body)
+        return src, lambda ns: {'K.wrapper': ns['K'].wrapper, 'K().wrapper': ns['K']().wrapper}
     raise ValueError(form)
 
 
@@ -155,6 +194,11 @@ def program_checks(ctx, rep):
         partial = rng.random() < 0.15
         emulate = rng.random() < 0.3
         form = rng.choice(['function', 'function', 'method', 'super', 'apply_super', 'apply_super_shared'])
+        if rng.random() < 0.2:
+            # descriptor placements other than a plain method: only the wrapper strategy (emulate=True)
+            # can carry a forger on top of a classmethod / staticmethod object
+            form = rng.choice(['classmethod', 'classmethod_super', 'static_function'])
+            emulate = True
         progs.append((form, o, i, n, names, uva, uvk, partial, emulate))
     # expected signatures from the model
     model = ask(['forwards %s %s %d %s 0 0 %s %s %s' % (tok_sig(o), tok_sig(i), n, tok_names(names), b(uva), b(uvk), b(partial))
@@ -325,7 +369,33 @@ def replay(ctx, data):
         res = decide(run_cases([c]))
         return res[0][2] if res else None
     if r.get('kind') == 'program' and 'call' in r:
+        # re-run the recorded program: the labelled object's advertised signature against really
+        # executing the recorded call
         ns = {}
-        exec(compile(r['src'], '<c04-program>', 'exec'), ns)
-        return 'program replay: run the recorded source and call; see file'
+        with warnings.catch_warnings():
+            warnings.simplefilter('ignore')
+            exec(compile(r['src'], '<c04-program>', 'exec'), ns)
+            f = eval(r.get('label', 'wrapper'), ns)
+            sig = sigtools.signature(f)
+        n, ks = r['call']
+        try:
+            sig.bind(*([0] * n), **{name_of(k): 0 for k in ks})
+            accepted = True
+        except TypeError:
+            accepted = False
+        real = exec_call(f, (n, ks))
+        if accepted != real:
+            return '%s advertises %s which %s call %s, but executing it %s' % (
+                r.get('label'), sig, 'accepts' if accepted else 'rejects', show_call((n, ks)),
+                'succeeds' if real else 'raises a TypeError')
+        return None
+    if r.get('kind') == 'program':
+        ns = {}
+        try:
+            with warnings.catch_warnings():
+                warnings.simplefilter('ignore')
+                exec(compile(r['src'], '<c04-program>', 'exec'), ns)
+        except Exception as e:  # noqa: BLE001
+            return 'defining the recorded program raises %s: %s' % (type(e).__name__, e)
+        return 'recorded program (signature mismatch against forwards()): see the file for the source'
     return None
